@@ -326,3 +326,49 @@ def pattern_split_rule(m, rid):
         if not ok:
             r.fail("Pattern.%s|%s|%s" % (meth, pname, text), "pattern.%s.%s(%r) gives %r, expected %r" % (pname, meth, text, got, want), m.loc(f))
     return r
+
+
+def call_base_rule(m, rid):
+    """CallBase.match as a table over strings on which the replace map is the identity (no nested group, literal or exponent): whatever is
+    matched, the pieces handed to the two classes re-assemble -- with the brackets -- to the whole input, so no character (a surplus
+    ')' ...) is dropped."""
+    r = RuleResult(rid, "CallBase.match, decided as a table: `lhs ( [rhs] )` is cut at the last '(' and the final ')', and lhs + '(' + rhs + ')' "
+                        "re-assembles to the whole text (a surplus bracket stays in a piece, where the operand class rejects it)")
+    r.floor = 10
+    f = m.method(m.key("CallBase", UTILS), "match")
+    if f is None:
+        r.error("CallBase.match vanished")
+        return r
+    ev = PE.Evaluator({"string_replace_map": lambda s_, lower=False: (s_, lambda x: x)})
+    L, R = ctor("L"), ctor("R")
+    cases = [
+        ("f(a)", ("f", "a")), ("f()", ("f", None)), ("f( a, b )", ("f", "a, b")), ("f (a)", ("f", "a")), ("a(i)(j)", ("a(i)", "j")),
+        ("f(a))", "reassemble"), ("f(a)b)", "reassemble"), ("f((a)", "reassemble"), ("f)(a)", "reassemble"), ("f(a)(", None),
+        ("f(a", None), ("fa)", None), ("(a)", None), ("f", None), ("", None),
+    ]
+    for text, want in cases:
+        r.instances += 1
+        got = run(ev, f, [L, R, text])
+        if isinstance(got, PE.PyRaise):
+            ok, shown = False, "raises %s" % got.exc_type
+        elif got is None:
+            ok, shown = (want is None or want == "reassemble"), None
+        else:
+            lhs, rhs = got
+            lt = lhs.text if isinstance(lhs, Node) else lhs
+            rt = rhs.text if isinstance(rhs, Node) else rhs
+            shown = (lt, rt)
+            whole = "%s(%s)" % (lt, rt or "")
+            same = whole.replace(" ", "") == text.replace(" ", "")
+            if want == "reassemble":
+                ok = same
+            elif want is None:
+                ok = False
+            else:
+                ok = same and (lt.strip(), (rt or "").strip() or None) == (want[0], want[1])
+        r.ob(ok, "CallBase.match(L, R, %r) -> %r" % (text, shown))
+        if not ok:
+            r.fail("CallBase|%s" % text, "CallBase.match(L, R, %r) gives %r: %s" % (
+                text, shown, "the pieces do not re-assemble to the input -- a character of the statement is dropped, so text with a surplus "
+                "bracket is accepted" if want == "reassemble" or want is not None else "text without the `lhs(...)` shape is accepted"), m.loc(f))
+    return r
